@@ -29,7 +29,10 @@ RULE = ("ints: 0, +-(10^k-2..10^k+2) for k=0..18, int64 extremes, every permutat
         "reversed / inner slices, chained, also empty) BEFORE, between and after the accesses to its columns in every order, and "
         "write the selected table in between; lines of equal length in one table in four; every column read and every written "
         "line must be that selection of the file's values, each integer column also against the Lean model of the column reader "
-        "on exactly that sub-batch. Non-trivial = |n| within 2 "
+        "on exactly that sub-batch; one program in three is a TREE of tables all alive at once (every selection a new table taken "
+        "from any earlier one; reads and writes name the table): a child slice / mask / index list is written or read, then its "
+        "PARENT, a sibling or a grandchild is read for the first time - a table is the list of its rows' values whatever was "
+        "derived from it. Non-trivial = |n| within 2 "
         "of a power of ten, an int64 extreme, a sign, or a batch with >= 2 widths (ints); >= 2 rows or an exponent or >= 16 "
         "digits (floats)")
 EXHAUSTIVE = {"quick": False, "thorough": False}
@@ -490,6 +493,49 @@ def _apply_selector(seq, sel):
     return seq[slice(*sel["v"])]
 
 
+def _lazy_tree_steps(rng, n, cols, numeric):
+    """several tables alive at once: every selection makes a NEW table ("src" = the register it is taken from, register 0 =
+    the table the reader returned), reads and writes name the register they look at ("reg"): a child (slice / mask / index
+    list / permutation) is written or read, THEN its parent - or a sibling, or a grandchild - is read for the first time"""
+    lens = [n]
+    steps = []
+
+    def sel(src, slc=None):
+        s_ = slc or _rand_selector(rng, lens[src])
+        lens.append(len(_apply_selector(list(range(lens[src])), s_)))
+        steps.append({"k": "sel", "sel": s_, "src": src})
+        return len(lens) - 1
+    if rng.random() < 0.5:
+        # the canonical tree: a slice that does not start at row 0 (a VIEW of the parent's offsets in NumPy), the child
+        # written / read, then every number column of the PARENT for the first time, then the child again
+        a = rng.randrange(1, n) if n > 1 else 0
+        child = sel(0, {"t": "slice", "v": rng.choice([[a, None, None], [a, rng.randint(a, n), None], [a, None, 2], [None, None, -1],
+                                                        [-max(1, n // 2), None, None]])} if rng.random() < 0.8 else None)
+        for _ in range(rng.choice([1, 1, 2])):
+            steps.append(rng.choice([{"k": "write", "reg": child}, {"k": "write", "reg": child}, {"k": "get", "reg": child, "col": rng.choice(numeric)}]))
+        if rng.random() < 0.4:
+            grand = sel(child)
+            steps.append({"k": "write", "reg": grand})
+        for c_ in rng.sample(numeric, len(numeric)):
+            steps.append({"k": "get", "reg": 0, "col": c_})
+        steps.append({"k": "get", "reg": child, "col": rng.choice(numeric)})
+        if rng.random() < 0.5:
+            steps.append({"k": "write", "reg": 0})
+        return steps
+    for _ in range(rng.randint(3, 9)):
+        k = rng.random()
+        reg = rng.randrange(len(lens))
+        if k < 0.35:
+            sel(reg)
+        elif k < 0.75:
+            steps.append({"k": "get", "reg": reg, "col": rng.choice(numeric) if rng.random() < 0.8 else rng.choice([nm for nm, _ in cols])})
+        else:
+            steps.append({"k": "write", "reg": reg})
+    for reg in rng.sample(range(len(lens)), min(len(lens), 3)):      # at the end: look at up to three of the tables once more
+        steps.append({"k": "get", "reg": reg, "col": rng.choice(numeric)})
+    return steps
+
+
 def _lazy_case(rng):
     table = "bed" if rng.random() < 0.3 else "custom"
     cols = LAZY_TABLES[table]
@@ -502,6 +548,9 @@ def _lazy_case(rng):
             if rng.random() < 0.5:
                 r[1] = _lazy_field(rng, "int", True, equal_width)
     numeric = [name for name, typ in cols if typ != "str"]
+    if rng.random() < 0.35:
+        return {"op": "lazy_prog", "table": table, "rows": rows, "steps": _lazy_tree_steps(rng, n, cols, numeric),
+                "read": rng.choice(["read_chunk", "read_chunk", "read", "chunks"]), "chunk": rng.choice([1, 30, 100])}
     shape = rng.random()
     cur = n
     steps = []
@@ -819,17 +868,18 @@ def _lazy_prog_impl(c):
             t = np.concatenate(list(f.read_chunks(min_chunk_size=c["chunk"])))
         out = []
         n_written = 0
+        regs = [t]                 # every table made by the program stays alive: register 0 = what the reader returned
         for st in c["steps"]:
             if st["k"] == "sel":
-                t = t[_np_selector(st["sel"])]
+                regs.append(regs[st.get("src", -1)][_np_selector(st["sel"])])
             elif st["k"] == "get":
                 typ = dict(cols)[st["col"]]
-                out.append(_lazy_column(getattr(t, st["col"]), typ))
+                out.append(_lazy_column(getattr(regs[st.get("reg", -1)], st["col"]), typ))
             else:
                 q = d + "/w%d%s" % (n_written, suffix)
                 n_written += 1
                 with bnp.open(q, "w", **kw) as w:
-                    w.write(t)
+                    w.write(regs[st.get("reg", -1)])
                 lines = open(q).read().split("\n")
                 if lines[-1] != "":
                     return {"err": "written-file-does-not-end-with-newline"}
@@ -1144,19 +1194,22 @@ def oracle(c):
             return SKIP
         names = [name for name, _ in cols]
         out = []
+        regs = [vals]              # a table is the list of its rows' values, whatever else was derived from it, read or written
         for st in c["steps"]:
             if st["k"] == "sel":
-                if st["sel"]["t"] == "idx" and any(not (-len(vals) <= i < len(vals)) for i in st["sel"]["v"]):
+                src = regs[st.get("src", -1)]
+                if st["sel"]["t"] == "idx" and any(not (-len(src) <= i < len(src)) for i in st["sel"]["v"]):
                     return SKIP
-                if st["sel"]["t"] == "mask" and len(st["sel"]["v"]) != len(vals):
+                if st["sel"]["t"] == "mask" and len(st["sel"]["v"]) != len(src):
                     return SKIP
-                vals = _apply_selector(vals, st["sel"])
+                regs.append(_apply_selector(src, st["sel"]))
             elif st["k"] == "get":
                 j = names.index(st["col"])
                 # a missing Optional[int] reads as 0 in the parsed column; in a written line it stays missing
-                out.append({"col": [(0 if (cols[j][1] == "oint" and r[j] == "missing") else r[j]) for r in vals], "typ": cols[j][1]})
+                out.append({"col": [(0 if (cols[j][1] == "oint" and r[j] == "missing") else r[j]) for r in regs[st.get("reg", -1)]],
+                            "typ": cols[j][1]})
             else:
-                out.append({"lines": [list(r) for r in vals]})
+                out.append({"lines": [list(r) for r in regs[st.get("reg", -1)]]})
         return out
     if op == "fmt":
         info = np.iinfo(np.dtype(c.get("dtype", "int64")))
@@ -1333,18 +1386,18 @@ def _lazy_int_batches(c):
     file positions of the rows selected at that moment) - the selections are applied here to range(n) with plain list indexing"""
     cols = LAZY_TABLES[c["table"]]
     names = [name for name, _ in cols]
-    rows = list(range(len(c["rows"])))
+    regs = [list(range(len(c["rows"])))]
     out = []
     k = 0
     for st in c["steps"]:
         if st["k"] == "sel":
             try:
-                rows = _apply_selector(rows, st["sel"])
+                regs.append(_apply_selector(regs[st.get("src", -1)], st["sel"]))
             except IndexError:
                 return None
         else:
             if st["k"] == "get" and dict(cols)[st["col"]] == "int":
-                out.append((k, names.index(st["col"]), list(rows)))
+                out.append((k, names.index(st["col"]), list(regs[st.get("reg", -1)])))
             k += 1
     return out
 
